@@ -15,7 +15,7 @@ fn bh() -> BuildHasherDefault<FnvHasher> {
     BuildHasherDefault::<FnvHasher>::default()
 }
 fn h(x: &u64) -> String {
-    hx(hash_with::<FnvHasher, u64>(x))
+    fnv_tok(x)
 }
 
 pub fn corr(ctx: &mut Ctx) {
@@ -149,7 +149,7 @@ pub fn corr(ctx: &mut Ctx) {
             for (i, x) in hist.iter().enumerate() {
                 let w = wgt(wclass_h, i);
                 s.hash_item(*x, w);
-                ctx.op(&format!("pmh2 item a {}:{}:{}", x, fhx(w), hx(seed_fnv(*x))));
+                ctx.op(&format!("pmh2 item a {}:{}:fnv", x, fhx(w)));
             }
             s.reset();
             ctx.op("pmh2 reset a");
@@ -159,7 +159,7 @@ pub fn corr(ctx: &mut Ctx) {
                 let w = if wclass_x == 0 { 1.0 + (i % 5) as f64 * 0.25 } else { wgt(wclass_x, i) };
                 s.hash_item(*x, w);
                 f.hash_item(*x, w);
-                ctx.op(&format!("pmh2 item a {}:{}:{}", x, fhx(w), hx(seed_fnv(*x))));
+                ctx.op(&format!("pmh2 item a {}:{}:fnv", x, fhx(w)));
             }
             ctx.line("pmh2 sig a", &join(s.get_signature()));
             ctx.line("pmh2 regs a", &join_fhx(&s.verif_registers()));
